@@ -645,7 +645,8 @@ class Gen:
                 ln = 0
             if ln == 0:
                 self.features["shape:empty-string"] += 1
-            chars = [r.choice([32 + r.below(95), 32 + r.below(95), 10, 9, 34, 39, 92]) for _ in range(ln)]
+            hi = r.chance(1, 3)     # bytes above 0x7f (never 0xff: the lexer takes it for the end of the file)
+            chars = [r.choice([32 + r.below(95), 32 + r.below(95), 10, 9, 34, 39, 92] + ([128 + r.below(127)] * 3 if hi else [])) for _ in range(ln)]
             return ["str", chars]
         if not cands:
             return None
